@@ -84,6 +84,15 @@ func materializeProject(p pProject, dir string, brk string) error {
 	case "config-missing":
 	case "config-malformed":
 		os.WriteFile(filepath.Join(dir, "gleece.config.json"), []byte("{ this is not json5"), 0o644)
+	case "routes-unwritable", "spec-unwritable":
+		// a DIRECTORY sits where the artifact goes: the write fails (for root as well) at the very end of the run - the
+		// command must exit non-zero, not report success
+		os.WriteFile(filepath.Join(dir, "gleece.config.json"), []byte(configText(p.Config)), 0o644)
+		target := filepath.Join(dir, "dist", "routes", "gleece.go")
+		if brk == "spec-unwritable" {
+			target = filepath.Join(dir, "dist", "openapi.json")
+		}
+		os.MkdirAll(target, 0o755)
 	default:
 		os.WriteFile(filepath.Join(dir, "gleece.config.json"), []byte(configText(p.Config)), 0o644)
 	}
@@ -136,9 +145,9 @@ func runCli(in cliIn) (out cliOut) {
 	if len(out.Tail) > 600 {
 		out.Tail = out.Tail[len(out.Tail)-600:]
 	}
-	_, e1 := os.Stat(filepath.Join(dir, "dist", "openapi.json"))
-	_, e2 := os.Stat(filepath.Join(dir, "dist", "routes", "gleece.go"))
-	out.Spec, out.Routes = e1 == nil, e2 == nil
+	s1, e1 := os.Stat(filepath.Join(dir, "dist", "openapi.json"))
+	s2, e2 := os.Stat(filepath.Join(dir, "dist", "routes", "gleece.go"))
+	out.Spec, out.Routes = e1 == nil && s1.Mode().IsRegular(), e2 == nil && s2.Mode().IsRegular()
 
 	// the same command as a Go function, on a fresh copy
 	dir2, err := os.MkdirTemp(scratch(), "cli2-")
@@ -196,6 +205,8 @@ func genCli(seed uint64, n int, tier string, emit func(string, []string, any)) {
 		}
 		if cr.Chance(1, 10) {
 			in.Break = rng.Pick(cr, []string{"config-missing", "config-malformed"})
+		} else if cr.Chance(1, 6) {
+			in.Break = rng.Pick(cr, []string{"routes-unwritable", "spec-unwritable"})
 		}
 		tags := []string{"cmd:" + kind}
 		if len(applied) > 0 {
